@@ -79,7 +79,7 @@ func runC03Proposal(c *Ctx, ce *Ceremony, poly *share.PubPoly, r *sched.Rng, wi,
 		}
 		shape = fmt.Sprintf("api-explicit-%d", k)
 	case 1: // API, baked range
-		starts := []int{0, 18631, 18629, r.Intn(18000), r.Intn(18000)}
+		starts := []int{0, 2, 4, 7, 18631, 18629, 18622, r.Intn(18000)}
 		lo := starts[r.Intn(len(starts))]
 		hi := lo + 1 + r.Intn(3)
 		if hi > 18632 {
@@ -101,7 +101,8 @@ func runC03Proposal(c *Ctx, ce *Ceremony, poly *share.PubPoly, r *sched.Rng, wi,
 				tasks = append(tasks, requests.SigningTask{MessageID: fmt.Sprintf("t%d-one", i), RangeStart: p, RangeEnd: p + 1})
 				shape += "S"
 			case 2:
-				p := r.Intn(18600)
+				// windows are drawn from a small pool so that successive proposals overlap
+				p := []int{0, 3, 5, 8, 18620, 18625, r.Intn(18600)}[r.Intn(7)]
 				tasks = append(tasks, requests.SigningTask{MessageID: fmt.Sprintf("t%d-range", i), RangeStart: p, RangeEnd: p + 2 + r.Intn(3)})
 				shape += "R"
 			default:
@@ -224,6 +225,27 @@ func runC03Proposal(c *Ctx, ce *Ceremony, poly *share.PubPoly, r *sched.Rng, wi,
 			if s.BatchID == bid {
 				cmp("broadcast", s)
 			}
+		}
+	}
+	// the expansion must not depend on what this process expanded before: re-expand fixed windows around
+	// the pool through the real function and compare with the independent expansion
+	for _, win := range [][2]int{{0, 14}, {18618, 18632}} {
+		got, err := requests.TasksToMessages([]requests.SigningTask{{MessageID: "probe", RangeStart: win[0], RangeEnd: win[1]}})
+		c.Eval(1)
+		if err != nil {
+			c.Violate("C03/expansion-of-a-valid-range-fails", fmt.Sprintf("%v: %v", win, err), wit)
+			continue
+		}
+		for k, m := range got {
+			idx, _ := oracle.BakedIndex(win[0] + k)
+			root := oracle.RefSigningRoot(idx)
+			if m.MessageID != fmt.Sprint(idx) || !bytes.Equal(m.Payload, root[:]) || m.File != fmt.Sprintf("bakedrange%d", win[0]+k) {
+				c.Violate("C03/expansion-depends-on-process-history", fmt.Sprintf("after this proposal, position %d expands to id=%q file=%q instead of validator %d", win[0]+k, m.MessageID, m.File, idx), wit)
+				break
+			}
+		}
+		if len(got) != win[1]-win[0] {
+			c.Violate("C03/expansion-length", fmt.Sprintf("%v expands to %d messages", win, len(got)), wit)
 		}
 	}
 	c.Add("partial_signatures_judged", judged)
